@@ -101,7 +101,12 @@ class Gen:
         return [(r.choice(alpha), r.randint(-9, 9)) for _ in range(r.randint(1, 7))]
 
     def ty(self):
-        return "s" if self.r.random() < 0.3 else "i"
+        """element type + memory layout of the slice arguments: @offset,spare (sub-slice of a larger
+        array with spare capacity behind it); no suffix = the slice is its whole backing array"""
+        t = "s" if self.r.random() < 0.3 else "i"
+        if self.r.random() < 0.55:
+            t += "@%d,%d" % (self.r.choice([0, 0, 1, 2, 3]), self.r.choice([0, 1, 2, 4]))
+        return t
 
 
 def random_cases(c, per):
@@ -142,7 +147,7 @@ def random_cases(c, per):
             big = [(1 << 62), (1 << 63) - 1, -(1 << 63), -(1 << 62), 1, -1, 12345]
             a = [r.choice(big) for _ in range(r.randint(1, 6))]
         for f in AGG:
-            out.append("i %s %s" % (f, sl(a)))
+            out.append("i%s %s %s" % (r.choice(LAYOUTS), f, sl(a)))
         m = g.pairs()
         for f in ["Keys", "Values", "KeysValues", "SplitPairs", "FlattenPairs"]:
             out.append("%s %s %s" % (g.ty(), f, pl(m)))
@@ -166,6 +171,14 @@ def all_slices(alpha, maxlen):
     return res
 
 
+LAYOUTS = ["", "@1,0", "@0,2", "@2,3"]
+
+
+def tyn(n):
+    """deterministic element type / layout for the exhaustive part"""
+    return "is"[n % 2] + LAYOUTS[(n // 2) % 4]
+
+
 ALPHA = [1, 2, 4]      # 3 letters; 1 and 4 are congruent mod 3, so `mod3` is a non-trivial equivalence
 
 
@@ -180,11 +193,11 @@ def exhaustive_cases(maxpair, maxunary):
             sa, sb = sl(a), sl(b)
             for f in SET2:
                 n += 1
-                out.append("%s %s %s %s" % ("is"[n % 2], f, sa, sb))
+                out.append("%s %s %s %s" % (tyn(n), f, sa, sb))
             for f in FUNC2:
                 for e in ("eq", "mod3", "le"):
                     n += 1
-                    out.append("%s %s %s %s %s" % ("is"[n % 2], f, e, sa, sb))
+                    out.append("%s %s %s %s %s" % (tyn(n), f, e, sa, sb))
     preds = ["eq:1", "eq:4", "lt:2", "lt:4", "even", "odd", "true", "false"]
     ipreds = preds + ["idxlt:2", "idxeven"]
     for a in all_slices(ALPHA, maxunary):
@@ -193,28 +206,28 @@ def exhaustive_cases(maxpair, maxunary):
         for x in ALPHA + [3]:
             for f in ["Contains", "Index", "LastIndex", "IndexAll"]:
                 n += 1
-                out.append("%s %s %s %d" % ("is"[n % 2], f, sa, x))
+                out.append("%s %s %s %d" % (tyn(n), f, sa, x))
         for p in preds:
             for f in ["ContainsFunc", "IndexFunc", "LastIndexFunc", "IndexAllFunc", "Find", "FindAll"]:
                 n += 1
-                out.append("%s %s %s %s" % ("is"[n % 2], f, sa, p))
+                out.append("%s %s %s %s" % (tyn(n), f, sa, p))
         for p in ipreds:
             n += 1
-            out.append("%s FilterDelete %s %s" % ("is"[n % 2], sa, p))
-            out.append("%s FilterMap %s idxadd %s" % ("is"[n % 2], sa, p))
+            out.append("%s FilterDelete %s %s" % (tyn(n), sa, p))
+            out.append("%s FilterMap %s idxadd %s" % (tyn(n), sa, p))
         for f in MAPFS_SMALL:
             n += 1
-            out.append("%s Map %s %s" % ("is"[n % 2], sa, f))
-            out.append("%s ToMap %s %s" % ("is"[n % 2], sa, f))
-            out.append("%s ToMapV %s %s idxadd" % ("is"[n % 2], sa, f))
-        out.append("%s Reverse %s" % ("is"[n % 2], sa))
-        out.append("%s ReverseSelf %s" % ("is"[n % 2], sa))
+            out.append("%s Map %s %s" % (tyn(n), sa, f))
+            out.append("%s ToMap %s %s" % (tyn(n), sa, f))
+            out.append("%s ToMapV %s %s idxadd" % (tyn(n), sa, f))
+        out.append("%s Reverse %s" % (tyn(n), sa))
+        out.append("%s ReverseSelf %s" % (tyn(n), sa))
         for i in range(-1, ln + 2):
-            out.append("%s Delete %s %d" % ("is"[n % 2], sa, i))
-            out.append("%s Add 0 %s 9 %d" % ("is"[n % 2], sa, i))
-            out.append("%s Add 1 %s 9 %d" % ("is"[n % 2], sa, i))
+            out.append("%s Delete %s %d" % (tyn(n), sa, i))
+            out.append("%s Add 0 %s 9 %d" % (tyn(n), sa, i))
+            out.append("%s Add 1 %s 9 %d" % (tyn(n), sa, i))
         for f in AGG:
-            out.append("i %s %s" % (f, sa))
+            out.append("i%s %s %s" % (LAYOUTS[n % 4], f, sa))
     # maps / pairs: all key sequences up to length 4 with values = position
     for ks in all_slices(ALPHA, min(4, maxunary)):
         vs = None if ks is None else list(range(10, 10 + len(ks)))
@@ -234,7 +247,8 @@ def exhaustive_cases(maxpair, maxunary):
 
 
 MALFORMED = ["i Bogus [1]", "i UnionSet [1]", "i UnionSet [1] [2] [3]", "i Find [1] gt:3", "i Map [1] sq", "s IndexFunc [1] eq",
-             "i UnionSetFunc ne [1] [2]", "i Index [a] 1", "i", "", "i Add 1 [1] 2", "i Keys [1:2:3]", "i Reverse 1,2"]
+             "i UnionSetFunc ne [1] [2]", "i Index [a] 1", "i", "", "i Add 1 [1] 2", "i Keys [1:2:3]", "i Reverse 1,2",
+             "i@1 Reverse [1]", "i@x,1 Reverse [1]"]
 
 
 def gen_cases(c):
@@ -448,7 +462,8 @@ def main(tier):
         dist[fn] = dist.get(fn, 0) + 1
         c.note_case(cs, re.search(r"\[-?\d", cs) is not None)
     c.cov["case_distribution"] = dist
-    c.cov["string_element_cases"] = sum(1 for cs in cases if cs.startswith("s "))
+    c.cov["string_element_cases"] = sum(1 for cs in cases if cs.startswith("s"))
+    c.cov["cases_with_offset_or_spare_capacity"] = sum(1 for cs in cases if "@" in cs.split(" ")[0])
     for cs in [x for x in cases if " SymmetricDiffSet " in x][:1] + [x for x in cases if " Add " in x][:1] + \
             [x for x in cases if " DiffSetFunc " in x][:1] + [x for x in cases if " FilterDelete " in x][:1] + \
             [x for x in cases if " MapxToMap " in x][:1]:
@@ -457,14 +472,33 @@ def main(tier):
         c.report("C16:harness:crash", "the harness stopped after %d of %d cases (uncaught panic?)" % (len(impl), len(cases)),
                  {"kind": "input", "case": cases[len(impl)] if len(impl) < len(cases) else None, "stderr": err[-2000:]})
     agree = 0
+    mem_compared = {}
     for i, cs in enumerate(cases):
-        o = impl[i] if i < len(impl) else "<missing>"
-        m = model[i] if i < len(model) else "<missing>"
-        if canon(o) == canon(m):
-            agree += 1
-            continue
+        o_full = impl[i] if i < len(impl) else "<missing>"
+        m_full = model[i] if i < len(model) else "<missing>"
+        o, _, o_mem = o_full.partition(" | ")
+        m, _, m_mem = m_full.partition(" | ")
         w = cs.split()
         fn = w[1] if len(w) > 1 else "?"
+        if m_mem:
+            mem_compared[fn] = mem_compared.get(fn, 0) + 1
+        if canon(o) == canon(m) and (not m_mem or o_mem == m_mem):
+            agree += 1
+            continue
+        if canon(o) == canon(m):
+            # memory level (SliceMemModel): which array the result lives in, nil-ness, len / cap of shared results,
+            # and every cell of every argument's backing array (also outside [offset, offset+len))
+            ri = [t for t in o_mem.split() if t.startswith("r@")]
+            rm = [t for t in m_mem.split() if t.startswith("r@")]
+            kind = "aliasing" if ri != rm else "argument-cells"
+            c.report("C16:%s:memory-%s" % (fn, kind),
+                     "%s: memory observables differ: the implementation gives %r, the header-level specification gives %r"
+                     % (fn, o_mem, m_mem),
+                     {"kind": "input", "case": cs, "implementation": o_full, "model": m_full,
+                      "format": "<elem type i|s>[@offset,spare] <Func> <args>; after ' | ': r@nil | r@empty | r@<arg>+<cell>,<len>,<cap> "
+                                "| r@new,<len> for each result slice, then every argument's whole backing array",
+                      "how": "echo '<case>' | <harness> c16"})
+            continue
         kind = kind_of(fn, canon(o), canon(m))
         # refinement property: the model's output is the specification, so this is a failing input
         c.report("C16:%s:%s" % (fn, kind),
@@ -473,13 +507,14 @@ def main(tier):
                   "format": "<elem type i|s> <Func> <args>; output = results, then each slice argument after the call",
                   "how": "echo '<case>' | <harness> c16"})
     c.cov["traces_validated_against_impl"] = agree
+    c.cov["memory_observables_compared"] = mem_compared
     # cross-check the OCaml extraction against vm_compute inside Coq on a sample
     r = random.Random(c.seed + 1)
     good = [i for i, cs in enumerate(cases) if i < len(model) and model[i] != "badcase"]
     idx = sorted(r.sample(good, min(300, len(good))))
     its = []
     for i in idx:
-        its.append("(%s, [%s])" % (call_to_coq(cases[i]), "; ".join(ov_to_coq(t) for t in model[i].split())))
+        its.append("(%s, [%s])" % (call_to_coq(cases[i]), "; ".join(ov_to_coq(t) for t in model[i].partition(" | ")[0].split())))
     v = CROSS_PRELUDE + "  [" + ";\n   ".join(its) + "].\n" + \
         "Definition bad := Eval vm_compute in length (filter (fun c => negb (check c)) cases).\nPrint bad.\n"
     rc, out = c.coq_crosscheck(v)
@@ -501,9 +536,13 @@ def finish(c):
              "slices over the alphabet {1,2,4} (and nil) up to length 2 (quick) / 4 (thorough) for the 12 binary set functions and all "
              "slices up to length 3 (quick) / 5 (thorough) for the unary ones with every parameter; every argument slice is printed "
              "again after the call (pure functions must leave it unchanged, in-place ones must show the modelled contents); results "
-             "of Go map iteration are compared as sorted collections; non-trivial = some argument is non-empty; distinct by md5 of the case text",
+             "of Go map iteration are compared as sorted collections; about half of the calls place every slice argument at an offset of a "
+             "larger backing array with spare capacity (sentinel cells) and compare the memory observables predicted by the extracted "
+             "header-level model SliceMemModel2.mem_run: result nil / empty / inside which argument array at which cell with which len and cap / "
+             "in a new array, and every cell of every argument array after the call; non-trivial = some argument is non-empty; distinct by md5 of the case text",
         assumptions=["Go's append writes into the argument's backing array iff cap > len (Add's effect on the argument is modelled for both cases)",
                      "Go map iteration visits every key exactly once in an unspecified order (model: insertion order; compared as sets)",
+                     "capacities of results in NEW arrays are not compared (growth policy of append is the runtime's); result identity is by address range of the argument arrays",
                      "errors are compared by class (index-out-of-range vs other), never by message"],
         trusted_base=["Coq 8.16.1 kernel + vm_compute (no native_compute)", "no axioms (Print Assumptions: closed under the global context)",
                       "extraction: ExtrOcamlBasic only, no Extract Constant; cross-checked against vm_compute on 300 cases per run",
